@@ -504,6 +504,12 @@ pub fn menu(st: &GenState, prog: &Program, cfg: &GenCfg) -> Vec<Step> {
             if !key_named("s") {
                 m.push(Step::Group { keys: ks.clone(), inner: vec![Step::Aggregate(vec![("s".into(), Agg::Sum, Some(other))])] });
             }
+            // (naming alphabet) an aggregate that takes the name of the key: both columns are in the frame
+            if naming && ks.len() == 1 {
+                if let Some(kn) = f.named(ks[0]) {
+                    m.push(Step::Group { keys: ks.clone(), inner: vec![Step::Aggregate(vec![(kn.to_string(), Agg::Sum, Some(other))])] });
+                }
+            }
             m.push(Step::Group {
                 keys: ks.clone(),
                 inner: vec![Step::Sort(vec![(false, E::Col(other))]), Step::Take(Some(1), Some(1))],
